@@ -414,8 +414,15 @@ impl Strategy {
 			return None;
 		}
 
-		// Pick the level with the highest score
-		let (level, _score) = scores[0];
+		// Pick the level with the highest score. The last level can only be
+		// compacted into itself (tombstone clean-up), which never makes room
+		// anywhere: it must not win against a level that has somewhere to go.
+		// Otherwise a last level above its size target is picked on every round,
+		// level 0 is never drained, and writers stalled on the level-0 limit wait
+		// for ever.
+		let last = manifest.last_level_index();
+		let (level, _score) =
+			scores.iter().copied().find(|(level, _)| *level != last).unwrap_or(scores[0]);
 		Some(level)
 	}
 }
